@@ -286,4 +286,39 @@ Section WithShake.
     if negb (N.eqb (nth 0 prehash 0%N) 255) then None else
     if negb (beq (firstn 4 (skipn 1 prehash)) (be_bytes 4 keyID)) then None else
     Some (signInternalWithMu fuel sk (skipn 5 prehash) rnd).
+
+  (* signature/compositemldsa (with internal/signature/compositemldsa/util.go):
+     signature = prefix ‖ ML-DSA signature ‖ classical signature, both over
+     M' = "CompositeAlgorithmSignatures2025" ‖ label ‖ 0x00 ‖ SHA-512(data),
+     the ML-DSA one with context = label.  SHA-512 and the classical verifier
+     (Ed25519, ECDSA, RSA: Go standard library) are Section variables. *)
+  Variable sha512 : bytes -> bytes.
+  Variable classicalVerify : bytes -> bytes -> bytes -> bool.   (* public key, message, signature *)
+
+  (* "CompositeAlgorithmSignatures2025" *)
+  Definition compositeDomain : bytes :=
+    [67; 111; 109; 112; 111; 115; 105; 116; 101; 65; 108; 103; 111; 114; 105; 116; 104; 109;
+     83; 105; 103; 110; 97; 116; 117; 114; 101; 115; 50; 48; 50; 53]%N.
+
+  Definition compositeMessagePrime (label data : bytes) : bytes :=
+    compositeDomain ++ label ++ [0%N] ++ sha512 data.
+
+  (* verifier.Verify: prefix, minimum length, then BOTH component verifications *)
+  Definition compositeVerify (prefix pkEnc clPk label sigma data : bytes) : option bool :=
+    match pkDecode pkEnc with
+    | None => Some false
+    | Some pk =>
+        if negb (beq (firstn (length prefix) sigma) prefix) then Some false else
+        let s := skipn (length prefix) sigma in
+        if Nat.ltb (length s) (signatureLength P) then Some false else
+        let mp := compositeMessagePrime label data in
+        match verify pk mp (firstn (signatureLength P) s) label with
+        | Some true => Some (classicalVerify clPk mp (skipn (signatureLength P) s))
+        | r => r
+        end
+    end.
+
+  (* the ML-DSA component produced by signer.Sign (secret key from the seed) *)
+  Definition compositeSignMldsaPart (fuel : nat) (sk : secretKey) (label data rnd : bytes) : option (option bytes) :=
+    sign fuel sk (compositeMessagePrime label data) label rnd.
 End WithShake.
